@@ -147,7 +147,7 @@ def run(ctx: Ctx) -> None:
         "state budget: 10*tol per step + 64*eps*||H||*t rounding; observable budget 2*||O||*state budget; continuous-time budget: discretisation error of an ideal midpoint scheme on the same grid + Krylov budget",
         "strata restricted to dt >= 1 and no evaluation time inside the last ns while the C22 defect (negative extrapolated amplitude) is unrepaired",
     ]
-    n = ctx.pick(120, 800)
+    n = ctx.pick(120, 500)
     jobs = make_jobs(ctx, n)
     results = pmap(sv_worker, jobs)
     evaluate(ctx, jobs, results, "sv")
